@@ -907,9 +907,9 @@ Qed.
 Lemma is_panic_omap {A B} (f : A -> B) (o : res A) : is_panic (omap f o) = is_panic o.
 Proof. destruct o; reflexivity. Qed.
 
-Lemma parse_kind_nopanic O k s : utf8_ok s = true -> is_panic (parse_kind O k s) = false.
+Lemma parse_kind_nopanic_notxt O k s : k <> K_TXT -> utf8_ok s = true -> is_panic (parse_kind O k s) = false.
 Proof.
-  intros Hu. unfold parse_kind, parse_kind_gen.
+  intros Hk Hu. unfold parse_kind, parse_kind_gen. replace (k =? K_TXT) with false by lia.
   repeat match goal with |- context [if ?b then _ else _] => destruct b end;
   rewrite is_panic_omap;
   first [apply parse_isd_nopanic | apply parse_asn_nopanic | apply parse_ia_nopanic | apply parse_svc_nopanic
@@ -1213,10 +1213,11 @@ Hypothesis RT6 : forall a, a < 2 ^ 128 -> ip6_parse O (ip6_display O a) = Some a
 Hypothesis CH4 : forall s a, ip4_parse O s = Some a -> forallb ip4ch s = true.
 Hypothesis CH6 : forall s a, ip6_parse O s = Some a -> forallb ip6ch s = true /\ has_colon s = true.
 
-Lemma kind_display_parse k v d :
+Lemma kind_display_parse k v d : k <> K_TXT ->
   val_wf k v = true -> val_named k v = true -> display_kind O k v = Some d -> parse_kind O k d = Ok v.
 Proof.
-  intros Hw Hn Hd. destruct v as [n|h|ia h|ia h p]; cbn [display_kind val_wf val_named] in *.
+  intros Hnt Hw Hn Hd. destruct v as [n|h|ia h|ia h p|l]; cbn [display_kind val_wf val_named] in *.
+  5:{ replace (k =? K_TXT) with false in Hd by lia. discriminate. }
   - unfold parse_kind, parse_kind_gen.
     destruct (k =? K_ISD) eqn:E0.
     { injection Hd as <-. rewrite parse_isd_display; [reflexivity|]. unfold U16_MAX. change (2 ^ 16) with 65536 in Hw. lia. }
@@ -1268,9 +1269,9 @@ Proof.
       destruct h; discriminate.
 Qed.
 
-Lemma kind_parse_exact k s v : parse_kind O k s = Ok v -> In (norm O k s) (forms O k v).
+Lemma kind_parse_exact k s v : k <> K_TXT -> parse_kind O k s = Ok v -> In (norm O k s) (forms O k v).
 Proof.
-  unfold parse_kind, parse_kind_gen, norm.
+  intros Hk. unfold parse_kind, parse_kind_gen, norm. replace (k =? K_TXT) with false by lia.
   destruct (k =? K_ISD) eqn:E0.
   { intros H. apply omap_ok in H. destruct H as (x & H & ->). cbn [forms display_kind]. rewrite E0.
     replace (k =? K_ASN) with false by (unfold K_ISD, K_ASN in *; lia). replace (k =? K_IA) with false by (unfold K_ISD, K_IA in *; lia).
